@@ -1,15 +1,15 @@
 (* Props_C11.v — C11: flat-line flags a point when the window ending at it varies less than tolerance.
    Only statements, `exact <lemma>` and Print Assumptions.
    (statements written out by tools/mk_props.py from the lemmas they restate) *)
-From IoosQc Require Import Base Generated FlatLine FlatLineProofs.
-
+From IoosQc Require Import Base Generated FlatLine FlatLineProofs Skel SkelBase SkelP_flat.
+From Coq Require Import String.
 
 (* on every regularly sampled series with ANY positive step d ns (D = d / 10^9 seconds: whole, fractional or below one second), every length (short series included), all placements of missing values and non-negative durations: model = specification with k = floor(threshold / D) *)
 Theorem C11_refines :
   forall (d : Z) (st ft tol : Q) (xs : list obs) (ts : list Z),
          regular_ns d ts ->
          (0 < d)%Z ->
-         length ts = length xs ->
+         Datatypes.length ts = Datatypes.length xs ->
          0 <= st -> 0 <= ft -> flat_model st ft tol xs ts = flat_spec (step_q d) st ft tol xs.
 Proof. exact (@flat_refines). Qed.
 Print Assumptions C11_refines.
@@ -83,7 +83,8 @@ Print Assumptions C11_early.
 (* a duration longer than the series flags nothing *)
 Theorem C11_long :
   forall (k : nat) (tol : Q) (xs : list obs) (i : nat),
-         (length xs <= k)%nat -> (i < length xs)%nat -> flat_hit k tol xs i = false.
+         (Datatypes.length xs <= k)%nat ->
+         (i < Datatypes.length xs)%nat -> flat_hit k tol xs i = false.
 Proof. exact (@flat_hit_long). Qed.
 Print Assumptions C11_long.
 
@@ -96,34 +97,36 @@ Print Assumptions C11_zero.
 (* series shorter than three points are never flagged SUSPECT or FAIL (missing points are MISSING) *)
 Theorem C11_short :
   forall (st ft tol : Q) (xs : list obs) (ts : list Z),
-         (length xs < 3)%nat ->
+         (Datatypes.length xs < 3)%nat ->
          flat_model st ft tol xs ts =
-         Flags (tab (length xs) (fun i : nat => if missing_at xs i then MISSING else GOOD)).
+         Flags (tab (Datatypes.length xs) (fun i : nat => if missing_at xs i then MISSING else GOOD)).
 Proof. exact (@flat_short). Qed.
 Print Assumptions C11_short.
 
 Theorem C11_short_no_flag :
   forall (st ft tol : Q) (xs : list obs) (ts : list Z) (l : list flag),
-         (length xs < 3)%nat -> flat_model st ft tol xs ts = Flags l -> ~ In SUSPECT l /\ ~ In FAIL l.
+         (Datatypes.length xs < 3)%nat ->
+         flat_model st ft tol xs ts = Flags l -> ~ In SUSPECT l /\ ~ In FAIL l.
 Proof. exact (@flat_short_no_flag). Qed.
 Print Assumptions C11_short_no_flag.
 
 (* the median sampling interval of a regular axis is its step *)
 Theorem C11_median_regular :
-  forall (d : Z) (ts : list Z), regular_ns d ts -> (2 <= length ts)%nat -> median_step ts = d.
+  forall (d : Z) (ts : list Z),
+         regular_ns d ts -> (2 <= Datatypes.length ts)%nat -> median_step ts = d.
 Proof. exact (@median_step_regular). Qed.
 Print Assumptions C11_median_regular.
 
 (* on ANY axis (irregular too) the model is pointwise in the counts derived from the median step *)
 Theorem C11_model_pointwise :
   forall (st ft tol : Q) (xs : list obs) (ts : list Z),
-         (3 <= length xs)%nat ->
+         (3 <= Datatypes.length xs)%nat ->
          median_step ts <> 0%Z ->
          (0 <= count_of st (median_step ts))%Z ->
          (0 <= count_of ft (median_step ts))%Z ->
          flat_model st ft tol xs ts =
          Flags
-           (tab (length xs)
+           (tab (Datatypes.length xs)
               (flat_ptk (Z.to_nat (count_of st (median_step ts)))
                  (Z.to_nat (count_of ft (median_step ts))) tol xs)).
 Proof. exact (@flat_model_pointwise). Qed.
@@ -132,7 +135,7 @@ Print Assumptions C11_model_pointwise.
 Theorem C11_model_missing :
   forall (st ft tol : Q) (xs : list obs) (ts : list Z) (l : list flag) (i : nat),
          flat_model st ft tol xs ts = Flags l ->
-         (i < length xs)%nat -> nth i l GOOD = MISSING <-> getq xs i = None.
+         (i < Datatypes.length xs)%nat -> nth i l GOOD = MISSING <-> getq xs i = None.
 Proof. exact (@flat_model_missing). Qed.
 Print Assumptions C11_model_missing.
 
@@ -156,6 +159,26 @@ Theorem C11_subsecond_step :
          Flags [GOOD; GOOD; SUSPECT; SUSPECT; FAIL].
 Proof. exact (@flat_subsecond_ok). Qed.
 Print Assumptions C11_subsecond_step.
+
+(* TRANSLATOR TIE: whenever the model returns flags they are the flag skeleton generated from the current source of flat_line_test (short series: MISSING only; otherwise the two inlined calls of the local run_test - SUSPECT from suspect_threshold, then FAIL from fail_threshold - then MISSING), run on the model's two test_results arrays *)
+Theorem C11_source_skeleton :
+  forall (st ft tol : Q) (xs : list obs) (ts : list Z) (fl : list flag),
+         flat_model st ft tol xs ts = Flags fl ->
+         fl =
+         run_steps
+           (env_flat xs (run_test tol xs (Z.to_nat (count_of st (median_step ts))))
+              (run_test tol xs (Z.to_nat (count_of ft (median_step ts))))) skel_flat_line_test
+           (all_flags (Datatypes.length xs) GOOD).
+Proof. exact (@skel_flat_model). Qed.
+Print Assumptions C11_source_skeleton.
+
+(* the same for arbitrary window lengths *)
+Theorem C11_source_skeleton_steps :
+  forall (tol : Q) (xs : list obs) (cs cf : nat),
+         run_steps (env_flat xs (run_test tol xs cs) (run_test tol xs cf)) skel_flat_line_test
+           (all_flags (Datatypes.length xs) GOOD) = flat_flags tol xs cs cf.
+Proof. exact (@skel_flat_line). Qed.
+Print Assumptions C11_source_skeleton_steps.
 
 Theorem C11_assign_order : assign_order_flat_line_test = [GOOD; MISSING; SUSPECT; FAIL; MISSING].
 Proof. reflexivity. Qed.
